@@ -253,6 +253,9 @@ def canon(kind, i, b, a, pend, sbuf):
     return '%s b=%s p=%s' % (kind, enc_text(b), enc_text(pend))
 
 
+TWINS = {}
+
+
 def run_real(case):
     """Run the history on the real code. Returns list of per-op records."""
     mode = case['mode']
@@ -309,6 +312,20 @@ def run_real(case):
                             src = render(q[2], mode)
                             src = src if mode == 'u' else src.encode('ascii')
                             pats.append(src if (asstring and not op.get('compiled')) else re.compile(src, flag_bits(q[1])))
+                    if case.get('twin'):
+                        # a second, unrelated object of the same class prepares the same pattern texts with the other ignorecase
+                        # setting right before this object's call (this object has prepared them once already): what one object
+                        # compiled must never be what another object searches with
+                        strs = [q_ for q_ in pats if isinstance(q_, (bytes, str))]
+                        if strs:
+                            p.compile_pattern_list(strs)
+                            tw = TWINS.get(mode)
+                            if tw is None:
+                                tw = TWINS[mode] = Scripted([], mode, clock)
+                            tw.ignorecase = p.ignorecase
+                            tw.compile_pattern_list(strs)
+                            tw.ignorecase = not p.ignorecase
+                            tw.compile_pattern_list(strs)
                     if op.get('single') and len(pats) == 1:
                         pats = pats[0]
                     if op.get('list_api'):
